@@ -295,6 +295,8 @@ def gen_c06(rng, idx, tier, faults):
     heap, ops = {}, []
     kinds = ["uniform", "clusters", "clusters", "lattice", "dups", "offset", "scaled", "gauss"]
     xs = gen_X(rng, kinds, 4, 80 if tier == "thorough" else 48, 2, 6)
+    if rng.random() < 0.06:
+        xs["shape"][0] = rng.randint(70, 140)  # long searches (counters, thresholds on the number of updates)
     if rng.random() < 0.25:
         xs["scale_pow2"] = rng.choice([-30, -24, -20, -12, 10, 20])
     heap["X0"] = xs
@@ -315,6 +317,12 @@ def gen_c06(rng, idx, tier, faults):
     p.pop("progress_bar", None)
     if isinstance(p.get("initialize"), int) and rng.random() < 0.12:
         p["initialize"] = p["initialize"] - n_from  # the same point, counted from the end
+    if rng.random() < 0.15:
+        # an absolute score threshold below every score the search meets (a fraction of the
+        # final farthest distance of a reference run): never reached, but many candidates'
+        # distances are below it
+        p["score_threshold"] = {"$c06_thr": round(rng.uniform(0.05, 0.7), 3)}
+        p["score_threshold_type"] = "absolute"
     # schedule of warm-started continuations
     sched = [N]
     for _ in range(rng.choice([0, 0, 1, 2])):
@@ -347,8 +355,16 @@ def gen_c06(rng, idx, tier, faults):
     if faults and not all128 and rng.random() < 0.12:
         crash = {"where": rng.choice(["start", "before_refit"]) if refit else "start",
                  "exc": rng.choice(["KeyboardInterrupt", "MemoryError"]), "at": rng.randint(1, 400), "warm": rng.random() < 0.3}
+    ff_set = None
+    if not calibrated and len(sched) > 1 and rng.random() < 0.25:
+        # the switching point is re-parameterised between two fits of the chain
+        ff_set = (rng.randrange(1, len(sched)), rng.choice([1e-9, 0.05, 0.3, 0.6, 1.0]))
+    lane_rng = [_seed(rng) for _ in lanes]
     for li, clk in enumerate(lanes):
         name = f"e{li}"
+        if faults and not all128:
+            clk = dict(clk)
+            clk["_rng"] = lane_rng[li]
         ops.append({"op": "NEW", "obj": name, "cls": "sample.VoronoiFPS", "params": dict(p), "lane": 0})
         if crash and crash["where"] == "start":
             # a fit that crashes at an arbitrary line; the history proper starts with a cold fit
@@ -357,6 +373,8 @@ def gen_c06(rng, idx, tier, faults):
         for si, n in enumerate(sched):
             if si > 0:
                 ops.append({"op": "SET", "obj": name, "params": {"n_to_select": forms[si]}})
+                if ff_set and ff_set[0] == si:
+                    ops.append({"op": "SET", "obj": name, "params": {"full_fraction": ff_set[1]}})
                 if restart_at == si:
                     ops.append({"op": "RESTART", "obj": name, "mode": restart_mode})
             ops.append({"op": "FIT", "obj": name, "X": "X0", "y": yn, "warm": si > 0, "env": {"clock": clk}})
@@ -379,6 +397,12 @@ def gen_c06(rng, idx, tier, faults):
             else:
                 ops.append({"op": "SET", "obj": name, "params": {"n_to_select": forms[0]}})
             ops.append({"op": "FIT", "obj": name, "X": refit_X_eff, "y": None if refit_X_eff == "X1" else yn, "warm": False, "env": {"clock": clk}})
+    for o in ops:
+        e = o.get("env")
+        if o["op"] == "FIT" and e and isinstance(e.get("clock"), dict) and "_rng" in e["clock"]:
+            c = dict(e["clock"])
+            e["rng"] = {"seed": c.pop("_rng")}  # another ambient RNG state per lane
+            e["clock"] = c
     return {"heap": heap, "ops": ops}
 
 
